@@ -8,6 +8,11 @@ func (e *BinaryOpExpr) Check(ctx *CheckCtx) error {
 		return err
 	}
 	e.tryRewriteExpr(ctx)
+	for _, side := range []Expression{e.Left, e.Right} {
+		if ref, ok := side.(*FieldReferenceExpr); ok && exprContains(ref.FieldExpr, e) {
+			return NewSyntaxError(ref.GetPos(), "Field %s is defined in terms of itself", ref.Name.Data)
+		}
+	}
 	switch e.Op {
 	case And, Or, KWAnd, KWOr:
 		return e.checkWithAndOr(ctx)
@@ -22,6 +27,39 @@ func (e *BinaryOpExpr) Check(ctx *CheckCtx) error {
 	default:
 		return e.checkWithCompares(ctx)
 	}
+}
+
+// exprContains reports whether target is root or one of its sub-expressions,
+// looking through field references. A field name that refers to an
+// expression containing the reference itself (upper(u) as u, or a as b,
+// b as a) would make type inference and evaluation recurse for ever.
+func exprContains(root, target Expression) bool {
+	if root == target {
+		return true
+	}
+	switch e := root.(type) {
+	case *BinaryOpExpr:
+		return exprContains(e.Left, target) || exprContains(e.Right, target)
+	case *NotExpr:
+		return exprContains(e.Right, target)
+	case *FunctionCallExpr:
+		for _, arg := range e.Args {
+			if exprContains(arg, target) {
+				return true
+			}
+		}
+	case *ListExpr:
+		for _, item := range e.List {
+			if exprContains(item, target) {
+				return true
+			}
+		}
+	case *FieldAccessExpr:
+		return exprContains(e.Left, target)
+	case *FieldReferenceExpr:
+		return exprContains(e.FieldExpr, target)
+	}
+	return false
 }
 
 func (e *BinaryOpExpr) tryRewriteExpr(ctx *CheckCtx) {
@@ -257,6 +295,9 @@ func (e *FunctionCallExpr) Check(ctx *CheckCtx) error {
 	if len(e.Args) > 0 {
 		for i, a := range e.Args {
 			a = e.tryRewriteExpr(i, ctx)
+			if ref, ok := a.(*FieldReferenceExpr); ok && exprContains(ref.FieldExpr, e) {
+				return NewSyntaxError(ref.GetPos(), "Field %s is defined in terms of itself", ref.Name.Data)
+			}
 			if err := a.Check(ctx); err != nil {
 				return err
 			}
